@@ -79,7 +79,7 @@ def _is_nontrivial(M, w, n):
 
 def _engine_case(R, n, symm, cells, tag, only, chunks=None, frames=True):
     from cooler.core import CSRReader, DirectRangeQuery2D, FillLowerRangeQuery2D
-    pix = build.pattern_pix(n, cells)
+    pix = {k: (v if (k[0] + k[1]) % 2 == 0 else -v) for k, v in build.pattern_pix(n, cells).items()}      # values of both signs
     keys = sorted(pix)
     b1 = np.array([k[0] for k in keys], dtype=np.int64)
     b2 = np.array([k[1] for k in keys], dtype=np.int64)
@@ -195,9 +195,9 @@ def _api_case(R, n, symm, cells, tag, only, join=False, reduced=False):
     p3 = None
     try:
         build.create(p1, bins, pix, symm)
-        # /a/b carries a second value column (score = 1000 - 3 * count) that field= selects
-        build.create(p2 + "::/a/b", bins, {k: {"count": v, "score": 1000 - 3 * v} for k, v in pix.items()}, symm, cols=("count", "score"))
-        MS = build.dense(n, {k: 1000 - 3 * v for k, v in pix.items()}, symm)
+        # /a/b carries a second value column (score = 40 - 3 * count: values of both signs) that field= selects
+        build.create(p2 + "::/a/b", bins, {k: {"count": v, "score": 40 - 3 * v} for k, v in pix.items()}, symm, cols=("count", "score"))
+        MS = build.dense(n, {k: 40 - 3 * v for k, v in pix.items()}, symm)
         # a SECOND, different collection in the same file (as in a multi-resolution file): the complement pattern with other values;
         # it is queried alternately with /a/b below, so that anything remembered per file (not per collection) shows
         cells2 = [c for c in alpha.cells(n, symm) if c not in set(map(tuple, cells))]
